@@ -673,11 +673,20 @@ func (r *Reconciler) reconcileApply(ctx context.Context, proposal *configapi.Pro
 
 		updatedChangeValues := controllerutils.AddDeleteChildren(proposal.TransactionIndex, changeValues, config.Values)
 		// Create a list of PathValue pairs from which to construct a gNMI Set for the Proposal.
+		// Only the deletes are pruned to the top-most deleted paths: a value the change writes beneath a path it deletes
+		// is sent as well (the target processes the deletes of a request before its updates).
 		pathValues := make([]*configapi.PathValue, 0, len(updatedChangeValues))
 		for _, changeValue := range updatedChangeValues {
-			pathValues = append(pathValues, changeValue)
+			if changeValue.Deleted {
+				pathValues = append(pathValues, changeValue)
+			}
 		}
 		pathValues = tree.PrunePathValues(pathValues, true)
+		for _, changeValue := range updatedChangeValues {
+			if !changeValue.Deleted {
+				pathValues = append(pathValues, changeValue)
+			}
+		}
 
 		log.Infof("Updating %d paths on target '%s'", len(pathValues), config.TargetID)
 
